@@ -73,6 +73,10 @@ def inputs_for(name, mod, tier, rng):
             yield cls, x
     for cls, pc, x in gen.hostile_strings(nums[:2 if tier == 'quick' else 8], tier, rng):
         yield 'hostile:' + cls, x
+    # extreme field values (2**k - 1, 2**k, 2**k + 1, runs of 9 / F / Z / 0) written into every window of the known
+    # spellings (raw candidates as well as repaired ones)
+    for x in C.synth_field_extremes(name, rng, k=1 if tier == 'quick' else 3, raw=True, cap=400 if tier == 'quick' else 4000):
+        yield 'extreme-field', x
     # strings that start with the letters of the format's own label, bare and behind the printed label (raw candidates:
     # whether they are accepted is for the library to say)
     label = name.split('.')[-1].upper()
